@@ -156,6 +156,12 @@ turned out to be the check's fault; none is listed as a known finding.
   a restart terminates the children of the restarted actor for good, so mail to
   them is rightly dead-lettered; only addressees that are alive at the end and
   none of whose ancestors was restarted or killed are judged.
+* C18, uncovered when KF-C18-4 stopped matching: with a 5 s detection timeout
+  the quiet phase was 60 s, but a node whose joins failed during the fault
+  phase retries with a back-off of up to 30 s and may join 35 s after the
+  faults stopped - inside the judged window ("running node missing
+  transiently"). The known finding's signature had been hiding this harness
+  error; the quiet phase is now at least 180 s.
 * Window points inside a critical section made the bubble hang (a goroutine
   waiting for a mutex is not durably blocked for `synctest`): the instrumenter
   places none between Lock and Unlock.
@@ -177,18 +183,27 @@ the reply (delivered to a simulated future, not through the queue) or the
 virtual timeout. The global `math/rand` is seeded per case (`//go:debug
 randseednop=0` in the test binary).
 
-On the unchanged tree a fault-free 3-node cluster with the default options
-removes healthy members from +41 s on, for ever (Appendix-style trace in
-KF-C18-3). Therefore:
+At the start of the work a fault-free 3-node cluster with the default options
+removed healthy members from +41 s on, for ever (KF-C18-3..6, one root cause:
+gossip doubles as heartbeat and was suppressed whenever nothing changed). That
+is repaired now (`6ee221e`, a heartbeat floor of a quarter of the detection
+timeout); what remains is KF-C18-7: a node that crashed or left is removed by
+the detectors and re-introduced by gossip, for ever. Therefore still two
+regimes:
 
 * **Regime S** (detection timeout one hour, longer than any scenario): the
   property's clauses as written, at the end of a 180 s quiet phase.
 * **Regime L** (40 s default, 10 s, 5 s): the quiet phase lasts 8 x 1.5 x the
-  timeout; over its second half a running node that is absent from a view in
-  *every* sample, a dead node that is listed in every sample and was never
-  announced as removed, a pair of nodes whose leaders differ in every sample,
-  and a restarted node whose entry is not its running incarnation's in *any*
-  sample are violations. The transient forms are KF-C18-3..7.
+  timeout, at least 180 s (a node whose joins failed during the fault phase
+  retries with a back-off of up to 30 s); over its second half a running node
+  that is absent from a view in any sample, leaders that differ in any sample,
+  membership or leader announcements that go on - all violations when every
+  node that ever ran is still running; when a node died, the announcements
+  that follow from its resurrection carry their own signature
+  (`...|after-a-node-died`, KF-C18-9, same root cause as KF-C18-7); a dead
+  node that is listed in every sample and was never announced as removed, and
+  a restarted node whose entry is not its running incarnation's, are
+  violations in any case.
 
 Two genuine defects behind the restart clause were small and are fixed
 (KF-C18-1, KF-C18-2); each needs its own history and each fix is necessary for
@@ -244,14 +259,15 @@ its history (checked by replaying both histories with either fix alone).
 * **KF-C14-1** Tell blocks the caller during reconnect back-off. Repair =
   outbound queue + writer goroutine per peer: a redesign of `remoting.Mailbox`
   (ordering, back-pressure and dead-letter semantics all change).
-* **KF-C18-3..6** (one root cause) healthy members time out because liveness is
-  only refreshed by direct gossip and gossip is suppressed when nothing
-  changes; **KF-C18-7** removed members are resurrected because merges never
-  remove. Repair = heartbeats independent of view changes, a defined meaning
-  for the `LastSeen` of an entry learnt from a third party, and tombstones (or
-  removal by version-vector dominance): a change of the membership protocol.
-  A one-line "always gossip on the periodic tick" was considered and rejected:
-  alone it turns the 40-s flapping into permanent resurrection of dead nodes.
+* **KF-C18-7 / KF-C18-9** removed members are resurrected because merges never
+  remove; every round is announced as a membership change. Repair = tombstones
+  (or removal by version-vector dominance) and a defined meaning for the
+  `LastSeen` of an entry learnt from a third party: a change of the membership
+  protocol. (KF-C18-3..6 were first listed here, too, with the note that "always
+  gossip on the periodic tick" alone makes resurrection worse; the repair that
+  was finally made - a heartbeat floor per target, a quarter of the detection
+  timeout - does not: 320 000 thorough cases show the same rate of
+  resurrection as before and none of the four healthy-cluster signatures.)
 
 """
 
